@@ -60,6 +60,7 @@ impl Range {
     pub const ERROR_END_IS_BIGGER_THAN_FILESIZE_CONTENT_RANGE: &'static str = "end is bigger than filesize in content range";
     pub const ERROR_MALFORMED_RANGE_HEADER_WRONG_UNIT: &'static str = "range header malformed, most likely you have an error in unit statement";
 
+    pub const ERROR_PATH_IS_OUTSIDE_OF_SERVED_DIRECTORY: &'static str = "path is outside of the served directory";
     pub const ERROR_UNABLE_TO_PARSE_RANGE_START: &'static str = "unable to parse range start";
     pub const ERROR_UNABLE_TO_PARSE_RANGE_END: &'static str = "unable to parse range end";
 
@@ -214,6 +215,23 @@ impl Range {
         Ok(content_range_list)
     }
 
+    // true if following the path segment by segment ever leaves the directory it starts in
+    pub fn is_path_outside_of_served_directory(path: &str) -> bool {
+        let mut depth : usize = 0;
+        let unified_path = path.replace("\\", SYMBOL.slash);
+        for segment in unified_path.split(SYMBOL.slash) {
+            if segment == ".." {
+                if depth < 1 {
+                    return true;
+                }
+                depth = depth - 1;
+            } else if segment != "." && segment.len() != 0 {
+                depth = depth + 1;
+            }
+        }
+        false
+    }
+
     pub fn get_content_range_list(request_uri: &str, range: &Header) -> Result<Vec<ContentRange>, Error> {
         let mut content_range_list : Vec<ContentRange> = vec![];
 
@@ -228,6 +246,16 @@ impl Range {
         }
 
         let components = boxed_url_components.unwrap();
+
+        // a path that climbs above the served directory is refused, never read
+        if Range::is_path_outside_of_served_directory(&components.path) {
+            let error = Error {
+                status_code_reason_phrase: STATUS_CODE_REASON_PHRASE.n403_forbidden,
+                message: Range::ERROR_PATH_IS_OUTSIDE_OF_SERVED_DIRECTORY.to_string()
+            };
+            eprintln!("{} {}", &error.message, &components.path);
+            return Err(error);
+        }
 
         let file_path_part = components.path.replace(SYMBOL.slash, &FileExt::get_path_separator());
 
